@@ -201,7 +201,7 @@ pub enum ArgG {
 }
 
 /// Concrete argument (after resolving RelLen).
-#[derive(Clone, Debug, PartialEq)]
+#[derive(Clone, Debug, PartialEq, Hash)]
 pub enum Arg {
     Int(BigInt),
     Bin(Vec<u8>),
@@ -1067,7 +1067,9 @@ pub fn run(ctx: &Ctx) -> i32 {
                     stats.class("rope:non-owned");
                 }
                 if is_boundary(&arg, &boundaries) || has_rope(g) {
-                    stats.nontrivial(&(name, format!("{arg:?}")));
+                    // hashed structurally: formatting megabyte binaries for every case made one thorough
+                    // shard run for hours
+                    stats.nontrivial(&(name, &arg));
                     if n % 997 == 3 {
                         stats.sample(|| json!({"builtin": name, "arg": truncate(&describe(g, len0), 200), "model": truncate(&format!("{m:?}"), 120)}));
                     }
